@@ -1,3 +1,4 @@
+#![allow(unexpected_cfgs)]
 pub mod cas_structs;
 pub mod chunk_verification;
 pub mod constants;
